@@ -232,8 +232,15 @@ def r01_2(ctx: Ctx) -> None:
         tails = {norm(s.slice.lower) for s in slices if s.slice.upper is None and s.slice.lower is not None}
         ok = len(heads) == 1 and heads == tails
         if ok:
-            k = next(iter(heads))
-            ok = k == f"{cut.targets[0].id} - buflen" and any(isinstance(n, ast.Assign) and norm(n.targets[0]) == "buflen" and norm(n.value) == "len(self.buf)" for n in walk(a.node))
+            up = next(s.slice.upper for s in slices if s.slice.lower is None and s.slice.upper is not None)
+            k = norm(q.expand_locals(a, up, keep={cut.targets[0].id}))
+            # the buffered length must be the one measured BEFORE the head is appended to the buffer
+            ok = k == f"{cut.targets[0].id} - len(self.buf)"
+            if ok and isinstance(up, ast.BinOp) and isinstance(up.right, ast.Name):
+                meas = [n for n in walk(a.node) if isinstance(n, ast.Assign) and norm(n.targets[0]) == up.right.id]
+                adds = [c for c in q.calls(a) if attr_tail(c) == "add" and c.args and isinstance(c.args[0], ast.Subscript)]
+                acfg = cfg_of(a.node)
+                ok = bool(meas) and all(acfg.dominates(q.node_for(a, meas[0]), q.node_for(a, c)) for c in adds)
         ctx.check(ok, "R01.2", a, slices[0] if slices else a.node, f"{qual}: head/tail slices are complementary at cut - buffered",
                   f"{qual}: the processed head {sorted(heads)} and the retained tail {sorted(tails)} of the data are not complementary slices at (cut - buffered length)", construct=f"{qual} slices")
         # head goes to the cipher through the buffer, tail is retained with set()
@@ -244,8 +251,9 @@ def r01_2(ctx: Ctx) -> None:
             ok = norm(c.args[0]) == "self.buf.view"
             ctx.check(ok, "R01.2", a, c, f"{qual}: cipher is applied to the whole buffer", f"{qual}: the cipher is applied to something other than the block buffer")
     fl = ctx.prog.func("compressor", "AESCompressor.flush")
-    pad = [n for n in walk(fl.node) if isinstance(n, ast.Assign) and norm(n.targets[0]) == "padlen"]
-    ok = bool(pad) and norm(pad[0].value) == "-len(self.buf) & 15" and any(attr_tail(c) == "encrypt" for c in q.calls(fl))
+    padcalls = [c for c in q.calls(fl) if attr_tail(c) == "add" and c.args and isinstance(c.args[0], ast.Call) and dotted(c.args[0].func) == "bytes" and c.args[0].args]
+    ok = bool(padcalls) and norm(q.expand_locals(fl, padcalls[0].args[0].args[0])) in ("-len(self.buf) & 15", "-len(self.buf) & 0x0F", "-len(self.buf) % 16") \
+        and any(attr_tail(c) == "encrypt" for c in q.calls(fl))
     ctx.check(ok, "R01.2", fl, fl.node, "AES flush pads the residue to 16 and encrypts it", "AESCompressor.flush does not zero-pad the residue to the block size and encrypt it", construct="aes flush")
     # ---- decoder carry-over: _buf and _pos replaced together ------------------------------------
     d = ctx.prog.func("compressor", "SevenZipDecompressor.decompress")
@@ -257,7 +265,9 @@ def r01_2(ctx: Ctx) -> None:
         ok = dcfg.every_path_to_exit_passes(q.node_for(d, b), [q.node_for(d, p) for p in poss])
         ctx.check(ok, "R01.2", d, b, "carry-over buffer replaced together with its read position",
                   "the decoder's carry-over buffer is replaced but its read position is not reset on that path: the next call skips or re-delivers bytes")
-    sl = [n for n in walk(d.node) if isinstance(n, ast.Subscript) and isinstance(n.slice, ast.Slice) and norm(n.value) == "tmp"]
+    dec_names = {n.targets[0].id for n in walk(d.node) if isinstance(n, ast.Assign) and isinstance(n.targets[0], ast.Name) and isinstance(n.value, ast.Call)
+                 and attr_tail(n.value) == "_decompress"}
+    sl = [n for n in walk(d.node) if isinstance(n, ast.Subscript) and isinstance(n.slice, ast.Slice) and norm(n.value) in dec_names]
     heads = {norm(s.slice.upper) for s in sl if s.slice.lower is None}
     tails = {norm(s.slice.lower) for s in sl if s.slice.upper is None}
     ctx.check(len(heads) == 1 and heads == tails, "R01.2", d, sl[0] if sl else d.node, "surplus decoded bytes: delivered head and parked tail are complementary",
